@@ -427,6 +427,8 @@ def explore(job: dict) -> dict:
                           "high-zones" if any(int(z, 16) >= 8 for z in cfg["zones"]) else "low-zones-only"],
                  sample={"config": cfg, "learn": case["learn"], "faults": case["faults"], "converged_s": obs.get("t_converged"), "requests": obs["n_requests"],
                          "schema_requests": obs["n_schema_requests"], "lost": obs["n_lost"], "ran_s": obs["ran_s"]})
+        if obs.get("dead_pollers"):
+            col.note(f"a discovery poller task had ended by the end of the run (recorded): {obs['dead_pollers'][0][1][:80]}", len(obs["dead_pollers"]))
         for sig, d in judge(case, obs):
             col.violation(sig, case, d)
         # a case that does not converge costs a full 26-50 h horizon: once this worker holds three, more of them add nothing
